@@ -5,6 +5,10 @@
 From VF Require Import PQ PQWriter BytesProofs PQProofs.
 From Coq Require Import Lia ZifyBool ZifyNat.
 
+Lemma hdr_len_4 : hdr_len = 4%nat.
+Proof. reflexivity. Qed.
+Ltac hl := pose proof hdr_len_4.
+
 (* ---------- lists ---------- *)
 Lemma upd_nth_app {A} (f : A -> A) (a : list A) x b : upd_nth (length a) f (a ++ x :: b) = a ++ f x :: b.
 Proof. induction a as [|y a IH]; cbn; [reflexivity | rewrite IH; reflexivity]. Qed.
@@ -100,3 +104,485 @@ Proof.
 Qed.
 
 End Flat.
+
+(* ---------- the buffer primitives on the level of the page payloads ---------- *)
+Section Buf.
+Variable PS : nat.
+Notation P := (payload PS).
+Hypothesis HP : (hdr_len <= P)%nat.
+
+Definition pdata (l : list wpage) : list (list Z) := map wp_data l.
+Definition okp (D : list (list Z)) : Prop := Forall (fun d => (length d <= P)%nat) D.
+
+Lemma pdata_upd_last_push d l : pdata (upd_last (push d) l) = upd_last (fun x => x ++ d) (pdata l).
+Proof.
+  destruct (snoc_cases l) as [->|[a [x ->]]]; [reflexivity|].
+  unfold pdata. rewrite upd_last_snoc, !map_app. cbn [map]. rewrite upd_last_snoc. reflexivity.
+Qed.
+
+Lemma tail_len_snoc b a t : b_pages b = a ++ [t] -> tail_len PS b = length (wp_data t).
+Proof. intros H. unfold tail_len. rewrite H, rev_app_distr. reflexivity. Qed.
+
+Lemma flat_advance Dh D t : flat P ((Dh ++ D ++ [t]) ++ [[]]) = flat P (Dh ++ D ++ [t]) ++ zeros (P - length t).
+Proof.
+  rewrite flat_snoc. replace (Dh ++ D ++ [t]) with ((Dh ++ D) ++ [t]) by (rewrite <- app_assoc; reflexivity).
+  rewrite flat_snoc, flatpad_app. unfold flatpad at 2. cbn [map concat]. unfold padp.
+  rewrite !app_nil_r, <- !app_assoc. reflexivity.
+Qed.
+
+Lemma flat_push Dh D t d : flat P (Dh ++ D ++ [t ++ d]) = flat P (Dh ++ D ++ [t]) ++ d.
+Proof.
+  replace (Dh ++ D ++ [t ++ d]) with ((Dh ++ D) ++ [t ++ d]) by (rewrite <- app_assoc; reflexivity).
+  replace (Dh ++ D ++ [t]) with ((Dh ++ D) ++ [t]) by (rewrite <- app_assoc; reflexivity).
+  rewrite !flat_snoc, <- app_assoc. reflexivity.
+Qed.
+
+(* where the header of the open event lies: page i of the buffer = page (length Dh + i) of all pages, k bytes into its
+   payload, with room for the header; g = the position in the stream *)
+Definition hdr_at (Dh D : list (list Z)) (hdr : option (nat * nat)) (g : nat) : Prop :=
+  exists DA dp DB k, D = DA ++ dp :: DB /\ hdr = Some (length DA, (pgH + k)%nat) /\
+    (k + hdr_len <= length dp)%nat /\ ((length Dh + length DA) * P + k = g)%nat.
+
+Lemma hdr_at_grow_last Dh D hdr g f :
+  (forall x, (length x <= length (f x))%nat) -> hdr_at Dh D hdr g -> hdr_at Dh (upd_last f D) hdr g.
+Proof.
+  intros Hf (DA & dp & DB & k & -> & -> & Hk & Hg).
+  destruct (snoc_cases DB) as [->|[DB' [t ->]]].
+  - rewrite upd_last_snoc. exists DA, (f dp), [], k.
+    split; [reflexivity|]. split; [reflexivity|]. split; [|exact Hg]. exact (Nat.le_trans _ _ _ Hk (Hf dp)).
+  - replace (DA ++ dp :: DB' ++ [t]) with ((DA ++ dp :: DB') ++ [t]) by (rewrite <- app_assoc; reflexivity).
+    rewrite upd_last_snoc. exists DA, dp, (DB' ++ [f t]), k.
+    split; [rewrite <- app_assoc; reflexivity|]. split; [reflexivity|]. split; [exact Hk|exact Hg].
+Qed.
+
+Lemma hdr_at_snoc Dh D hdr g x : hdr_at Dh D hdr g -> hdr_at Dh (D ++ [x]) hdr g.
+Proof.
+  intros (DA & dp & DB & k & -> & -> & Hk & Hg). exists DA, dp, (DB ++ [x]), k.
+  split; [rewrite <- app_assoc; reflexivity|]. split; [reflexivity|]. split; [exact Hk|exact Hg].
+Qed.
+
+(* the buffer invariant: all = payloads of the released pages ++ payloads of the buffer pages; the stream they hold is
+   pre ++ open; the header of the open event is the first hdr_len bytes of open *)
+Record BI (Dh : list (list Z)) (b : wbuf) (pre open : list Z) : Prop := {
+  bi_ne : b_pages b <> [];
+  bi_ok : okp (Dh ++ pdata (b_pages b));
+  bi_flat : flat P (Dh ++ pdata (b_pages b)) = pre ++ open;
+  bi_hdr : hdr_at Dh (pdata (b_pages b)) (b_hdr b) (length pre);
+  bi_open : (hdr_len <= length open)%nat }.
+
+Lemma okp_app a b : okp (a ++ b) <-> okp a /\ okp b.
+Proof. apply Forall_app. Qed.
+
+Lemma append_byte_BI Dh b pre open x : BI Dh b pre open -> BI Dh (append_byte PS b x) pre (open ++ [x]).
+Proof.
+  intros [Hne Hok Hflat Hhdr Hopen].
+  destruct (snoc_cases (b_pages b)) as [E|[a [t E]]]; [contradiction|].
+  unfold append_byte, room. rewrite (tail_len_snoc b a t E).
+  assert (Ht : (length (wp_data t) <= P)%nat).
+  { rewrite E in Hok. unfold pdata in Hok. rewrite map_app in Hok. apply okp_app in Hok. destruct Hok as [_ Hok].
+    apply okp_app in Hok. destruct Hok as [_ Hok]. inversion Hok; assumption. }
+  destruct (Nat.eqb_spec (P - length (wp_data t)) 0) as [Hfull|Hroom]; cbn [b_pages b_hdr b_avail b_count advance].
+  - (* the page is full: a fresh one *)
+    rewrite E. replace ((a ++ [t]) ++ [fresh_wpage]) with ((a ++ [t]) ++ [fresh_wpage]) by reflexivity.
+    rewrite upd_last_snoc. split; cbn [b_pages b_hdr].
+    + intros H. apply app_eq_nil in H. destruct H as [_ H]. discriminate.
+    + rewrite E in Hok. unfold pdata in *. rewrite !map_app in *. cbn [map] in *.
+      apply okp_app. apply okp_app in Hok. destruct Hok as [H1 H2]. split; [exact H1|].
+      apply okp_app. split; [exact H2|]. constructor; [cbn [length wp_data push set_data fresh_wpage app]; hl; lia | constructor].
+    + rewrite E in Hflat. unfold pdata in *. rewrite !map_app in *. cbn [map wp_data push set_data fresh_wpage app] in *.
+      rewrite app_assoc. rewrite (app_assoc Dh). rewrite <- (app_assoc Dh (map wp_data a)).
+      replace ((Dh ++ map wp_data a ++ [wp_data t]) ++ [[x]]) with ((Dh ++ map wp_data a ++ [wp_data t]) ++ [[] ++ [x]]) by reflexivity.
+      rewrite flat_snoc. rewrite <- (app_nil_r (flatpad P (Dh ++ map wp_data a ++ [wp_data t]))) at 1.
+      assert (F := flat_advance Dh (map wp_data a) (wp_data t)). rewrite flat_snoc in F.
+      rewrite app_nil_r in *. rewrite F. replace (P - length (wp_data t))%nat with O by lia. cbn [zeros].
+      rewrite app_nil_r. cbn [app]. rewrite Hflat, <- app_assoc. reflexivity.
+    + rewrite E in Hhdr. unfold pdata in *. rewrite !map_app in *. cbn [map wp_data push set_data fresh_wpage app] in *.
+      apply hdr_at_snoc. exact Hhdr.
+    + rewrite app_length. lia.
+  - rewrite E, upd_last_snoc. split; cbn [b_pages b_hdr].
+    + intros H. apply app_eq_nil in H. destruct H as [_ H]. discriminate.
+    + rewrite E in Hok. unfold pdata in *. rewrite !map_app in *. cbn [map wp_data push set_data] in *.
+      apply okp_app. apply okp_app in Hok. destruct Hok as [H1 H2]. split; [exact H1|].
+      apply okp_app. apply okp_app in H2. destruct H2 as [H2 _]. split; [exact H2|].
+      constructor; [rewrite app_length; cbn; lia | constructor].
+    + rewrite E in Hflat. unfold pdata in *. rewrite !map_app in *. cbn [map wp_data push set_data] in *.
+      rewrite flat_push, Hflat, <- app_assoc. reflexivity.
+    + rewrite E in Hhdr. unfold pdata in *. rewrite !map_app in *. cbn [map wp_data push set_data] in *.
+      change (map wp_data a ++ [wp_data t ++ [x]]) with (map wp_data a ++ [(fun d => d ++ [x]) (wp_data t)]).
+      rewrite <- upd_last_snoc.
+      apply hdr_at_grow_last; [intros d; rewrite app_length; lia | exact Hhdr].
+    + rewrite app_length. lia.
+Qed.
+
+
+Lemma append_BI Dh : forall data b pre open, BI Dh b pre open -> BI Dh (append PS b data) pre (open ++ data).
+Proof.
+  unfold append. induction data as [|x data IH]; intros b pre open H; cbn [fold_left].
+  - rewrite app_nil_r. exact H.
+  - replace (open ++ x :: data) with ((open ++ [x]) ++ data) by (rewrite <- app_assoc; reflexivity).
+    apply IH. apply append_byte_BI. exact H.
+Qed.
+
+(* no event is open (between CommitEvent and ReserveHdr; before the first ReserveHdr the buffer may be empty) *)
+Record BC (Dh : list (list Z)) (b : wbuf) (all : list Z) : Prop := {
+  bc_ok : okp (Dh ++ pdata (b_pages b));
+  bc_flat : flat P (Dh ++ pdata (b_pages b)) = all;
+  bc_empty : b_pages b = [] -> Dh = [] }.
+
+Lemma pad_at_pos n t : (t <= P)%nat -> pad_at P (n * P + t) = if (P - t <? hdr_len)%nat then (P - t)%nat else O.
+Proof.
+  intros Ht. hl. unfold pad_at.
+  assert (HP0 : P <> O) by lia.
+  destruct (Nat.eq_dec t P) as [->|Hne].
+  - replace (n * P + P)%nat with (0 + (S n) * P)%nat by lia. rewrite Nat.mod_add by exact HP0.
+    rewrite Nat.mod_0_l by exact HP0. rewrite Nat.sub_0_r, Nat.sub_diag.
+    destruct (Nat.ltb_spec P hdr_len); [lia|]. destruct (Nat.ltb_spec 0 hdr_len); [reflexivity|lia].
+  - rewrite Nat.add_comm, Nat.mod_add by exact HP0. rewrite Nat.mod_small by lia. reflexivity.
+Qed.
+
+Lemma reserve_hdr_BI Dh b all : BC Dh b all ->
+  BI Dh (reserve_hdr PS b) (all ++ zeros (pad_at P (length all))) (zeros hdr_len).
+Proof.
+  intros [Hok Hflat Hemp]. hl.
+  destruct (snoc_cases (b_pages b)) as [E|[a [t E]]].
+  - (* empty buffer *)
+    specialize (Hemp E). subst Dh. destruct b as [pg av hd ct]. cbn [b_pages] in *. subst pg. cbn in Hflat. subst all.
+    assert (Hpad : pad_at P 0 = O).
+    { replace O with (0 * P + 0)%nat at 1 by lia. rewrite pad_at_pos by lia. rewrite Nat.sub_0_r.
+      destruct (Nat.ltb_spec P hdr_len); [lia|reflexivity]. }
+    cbn [length]. rewrite Hpad. cbn [zeros app].
+    unfold reserve_hdr, room, tail_len. cbn [b_pages rev]. rewrite Nat.sub_diag.
+    destruct (Nat.ltb_spec 0 hdr_len) as [_|]; [|lia].
+    unfold upd_last. cbn [advance b_pages app length Nat.sub upd_nth rev].
+    split; cbn [b_pages b_hdr pdata map wp_data push set_data fresh_wpage app].
+    + discriminate.
+    + constructor; [rewrite zeros_length; lia|constructor].
+    + reflexivity.
+    + exists [], (zeros hdr_len), [], O.
+      split; [reflexivity|]. split; [rewrite Nat.add_0_r; reflexivity|]. split; [rewrite zeros_length; lia|]. cbn. lia.
+    + rewrite zeros_length. lia.
+  - destruct b as [pg av hd ct]. cbn [b_pages] in *. subst pg.
+    assert (Ht : (length (wp_data t) <= P)%nat).
+    { unfold pdata in Hok. rewrite map_app in Hok. apply okp_app in Hok. destruct Hok as [_ Hok].
+      apply okp_app in Hok. destruct Hok as [_ Hok]. inversion Hok; assumption. }
+    assert (HokA : okp (Dh ++ map wp_data a)).
+    { unfold pdata in Hok. rewrite map_app in Hok. rewrite app_assoc in Hok. apply okp_app in Hok. tauto. }
+    assert (Hlen : length all = ((length Dh + length a) * P + length (wp_data t))%nat).
+    { rewrite <- Hflat. unfold pdata. rewrite map_app. cbn [map]. rewrite app_assoc, flat_length by exact HokA.
+      rewrite app_length, map_length. reflexivity. }
+    rewrite Hlen, pad_at_pos by exact Ht.
+    unfold reserve_hdr, room, tail_len. cbn [b_pages]. rewrite rev_app_distr. cbn [rev app].
+    destruct (Nat.ltb_spec (P - length (wp_data t)) hdr_len) as [Hsmall|Hbig].
+    + (* the header does not fit: fresh page *)
+      cbn [advance b_pages b_avail b_hdr b_count]. rewrite rev_app_distr. cbn [rev app wp_data fresh_wpage length].
+      rewrite upd_last_snoc.
+      split; cbn [b_pages b_hdr].
+      * intros H0. apply app_eq_nil in H0. destruct H0 as [_ H0]. discriminate.
+      * unfold pdata. rewrite !map_app. cbn [map wp_data push set_data fresh_wpage app].
+        apply okp_app. split; [apply okp_app in HokA; tauto|].
+        apply okp_app. split; [apply okp_app; split; [apply okp_app in HokA; tauto | constructor; [exact Ht|constructor]]|].
+        constructor; [rewrite zeros_length; lia|constructor].
+      * unfold pdata. rewrite !map_app. cbn [map wp_data push set_data fresh_wpage app].
+        rewrite <- (app_assoc (map wp_data a)). rewrite (app_assoc Dh). rewrite (app_assoc (Dh ++ map wp_data a)).
+        rewrite <- (app_assoc Dh). change [zeros hdr_len] with [[] ++ zeros hdr_len].
+        rewrite flat_snoc. assert (F := flat_advance Dh (map wp_data a) (wp_data t)). rewrite flat_snoc, app_nil_r in F.
+        rewrite F. cbn [app]. rewrite <- Hflat. unfold pdata. rewrite map_app. cbn [map]. rewrite <- app_assoc. reflexivity.
+      * unfold pdata. rewrite !map_app. cbn [map wp_data push set_data fresh_wpage app].
+        exists (map wp_data a ++ [wp_data t]), (zeros hdr_len), [], O.
+        split; [rewrite <- app_assoc; reflexivity|].
+        split; [rewrite !app_length, !map_length; cbn [length]; f_equal; f_equal; lia|].
+        split; [rewrite zeros_length; lia|].
+        rewrite !app_length, zeros_length, map_length. cbn [length]. lia.
+      * rewrite zeros_length. lia.
+    + cbn [b_pages b_avail b_hdr b_count]. rewrite rev_app_distr. cbn [rev app]. rewrite upd_last_snoc. cbn [zeros]. rewrite app_nil_r.
+      split; cbn [b_pages b_hdr].
+      * intros H0. apply app_eq_nil in H0. destruct H0 as [_ H0]. discriminate.
+      * unfold pdata. rewrite !map_app. cbn [map wp_data push set_data].
+        apply okp_app. split; [apply okp_app in HokA; tauto|].
+        apply okp_app. split; [apply okp_app in HokA; tauto|].
+        constructor; [rewrite app_length, zeros_length; lia|constructor].
+      * unfold pdata. rewrite !map_app. cbn [map wp_data push set_data].
+        rewrite flat_push. rewrite <- Hflat. unfold pdata. rewrite map_app. reflexivity.
+      * unfold pdata. rewrite !map_app. cbn [map wp_data push set_data].
+        exists (map wp_data a), (wp_data t ++ zeros hdr_len), [], (length (wp_data t)).
+        split; [reflexivity|].
+        split; [rewrite app_length, map_length; cbn [length]; f_equal; f_equal; lia|].
+        split; [rewrite app_length, zeros_length; lia|].
+        rewrite map_length. lia.
+      * rewrite zeros_length. lia.
+Qed.
+
+
+Lemma map_upd_nth_comm {A B} (h : A -> B) (f : A -> A) (f' : B -> B) : (forall x, h (f x) = f' (h x)) ->
+  forall (l : list A) i, map h (upd_nth i f l) = upd_nth i f' (map h l).
+Proof. intros H. induction l as [|x l IH]; intros [|i]; cbn; auto; [rewrite H | rewrite IH]; reflexivity. Qed.
+
+Lemma splice_exact (pre h4 cur src : list Z) : length src = length h4 ->
+  splice (length pre) src (pre ++ h4 ++ cur) = pre ++ src ++ cur.
+Proof.
+  intros H. unfold splice. rewrite firstn_app, Nat.sub_diag, firstn_all. cbn [firstn]. rewrite app_nil_r.
+  rewrite skipn_app. rewrite skipn_all2 by lia. replace (length pre + length src - length pre)%nat with (length h4) by lia.
+  rewrite skipn_app, skipn_all, Nat.sub_diag. cbn [skipn app]. reflexivity.
+Qed.
+
+Lemma set_hdr_size_BI Dh b pre h4 cur sz : length h4 = hdr_len -> BI Dh b pre (h4 ++ cur) ->
+  BI Dh (set_hdr_size b sz) pre (le_encode hdr_len sz ++ cur).
+Proof.
+  intros Hh4 [Hne Hok Hflat Hhdr Hopen].
+  destruct Hhdr as (DA & dp & DB & k & HD & Hh & Hk & Hg).
+  unfold set_hdr_size. rewrite Hh. replace (pgH + k - pgH)%nat with k by lia.
+  set (src := le_encode hdr_len sz). assert (Hsrc : length src = hdr_len) by apply le_encode_length.
+  assert (HPD : pdata (upd_nth (length DA) (fun p => set_data p (splice k src (wp_data p))) (b_pages b)) =
+                DA ++ splice k src dp :: DB).
+  { unfold pdata. rewrite (map_upd_nth_comm wp_data _ (splice k src)) by reflexivity.
+    fold (pdata (b_pages b)). rewrite HD. apply upd_nth_app. }
+  split; cbn [b_pages b_hdr].
+  - intros H0. apply (f_equal (@length _)) in H0. rewrite upd_nth_length in H0. destruct (b_pages b); [contradiction|discriminate].
+  - rewrite HPD. rewrite HD in Hok. apply okp_app in Hok. destruct Hok as [H1 H2]. apply okp_app. split; [exact H1|].
+    apply okp_app in H2. destruct H2 as [H2 H3]. apply okp_app. split; [exact H2|].
+    inversion H3; subst. constructor; [rewrite splice_length by lia; assumption | assumption].
+  - rewrite HPD, app_assoc. rewrite flat_splice.
+    + rewrite <- app_assoc, <- HD, Hflat. rewrite app_length. rewrite Hg. apply splice_exact. lia.
+    + rewrite HD in Hok. rewrite app_assoc in Hok. apply okp_app in Hok. tauto.
+    + lia.
+  - rewrite HPD. exists DA, (splice k src dp), DB, k.
+    split; [reflexivity|]. split; [first [exact Hh | reflexivity]|]. split; [rewrite splice_length by lia; exact Hk | exact Hg].
+  - rewrite app_length, Hsrc. lia.
+Qed.
+
+Lemma pdata_mark_from : forall l i, pdata (mark_from i l) = pdata l.
+Proof. induction l as [|x l IH]; intros [|i]; cbn; auto; f_equal; apply IH. Qed.
+
+Lemma commit_event_pdata b id : pdata (b_pages (commit_event b id)) = pdata (b_pages b).
+Proof.
+  unfold commit_event. destruct (b_hdr b) as [[i off]|]; [|reflexivity]. cbn [b_pages].
+  assert (E1 : forall l, pdata (upd_nth 0 (set_dirty true) l) = pdata l).
+  { intros l. unfold pdata. apply map_upd_nth. reflexivity. }
+  destruct (i =? 1)%nat; [rewrite E1|]; rewrite pdata_mark_from; unfold pdata; apply map_upd_nth;
+    intros x; destruct (wp_off x =? 0)%nat; reflexivity.
+Qed.
+
+Lemma commit_event_BC Dh b pre open id : BI Dh b pre open -> BC Dh (commit_event b id) (pre ++ open).
+Proof.
+  intros [Hne Hok Hflat Hhdr Hopen]. split.
+  - rewrite commit_event_pdata. exact Hok.
+  - rewrite commit_event_pdata. exact Hflat.
+  - intros H0. apply (f_equal pdata) in H0. rewrite commit_event_pdata in H0. destruct (b_pages b); [contradiction|discriminate].
+Qed.
+
+
+(* a flush does not touch the payloads: it moves pages from the buffer to the released ones and changes ids, links, flags *)
+Lemma BI_same_data Dh b b' pre open : pdata (b_pages b') = pdata (b_pages b) -> b_hdr b' = b_hdr b ->
+  BI Dh b pre open -> BI Dh b' pre open.
+Proof.
+  intros HD Hh [Hne Hok Hflat Hhdr Hopen]. split; rewrite ?HD, ?Hh; auto.
+  intros H0. rewrite H0 in HD. destruct (b_pages b); [contradiction|discriminate].
+Qed.
+
+Lemma BI_shift Dh b b' pre open X k i off :
+  pdata X = pdata (b_pages b) -> b_hdr b = Some (i, off) -> (k <= i)%nat ->
+  b_pages b' = skipn k X -> b_hdr b' = Some ((i - k)%nat, off) ->
+  BI Dh b pre open -> BI (Dh ++ pdata (firstn k X)) b' pre open.
+Proof.
+  intros HX Hh Hk Hp' Hh' [Hne Hok Hflat Hhdr Hopen].
+  destruct Hhdr as (DA & dp & DB & k0 & HD & Hh2 & Hk0 & Hg).
+  rewrite Hh in Hh2. injection Hh2 as Hi Hoff. subst i.
+  assert (HXs : pdata (skipn k X) = skipn k DA ++ dp :: DB).
+  { unfold pdata in *. rewrite <- skipn_map, HX, HD, skipn_app. replace (k - length DA)%nat with O by lia. reflexivity. }
+  assert (HXf : pdata (firstn k X) = firstn k DA).
+  { unfold pdata in *. rewrite <- firstn_map, HX, HD, firstn_app. replace (k - length DA)%nat with O by lia.
+    cbn [firstn]. apply app_nil_r. }
+  assert (Hall : (Dh ++ pdata (firstn k X)) ++ pdata (b_pages b') = Dh ++ pdata (b_pages b)).
+  { rewrite Hp', HXs, HXf, HD, <- app_assoc. f_equal. rewrite app_assoc, firstn_skipn. reflexivity. }
+  split.
+  - rewrite Hp'. intros H0. apply (f_equal pdata) in H0. rewrite HXs in H0. destruct (skipn k DA); discriminate.
+  - rewrite Hall. exact Hok.
+  - rewrite Hall. exact Hflat.
+  - rewrite Hp', HXs, Hh'. exists (skipn k DA), dp, DB, k0.
+    split; [reflexivity|]. split; [rewrite skipn_length, Hoff; reflexivity|]. split; [exact Hk0|].
+    rewrite <- Hg, HXf, app_length, firstn_length, skipn_length. f_equal. lia.
+  - exact Hopen.
+Qed.
+
+End Buf.
+
+Lemma pdata_app a b : pdata (a ++ b) = pdata a ++ pdata b.
+Proof. apply map_app. Qed.
+Lemma pdata_assign : forall ids l, pdata (assign ids l) = pdata l.
+Proof. intros ids l; revert ids. induction l as [|x l IH]; intros [|id ids]; cbn; auto. f_equal. apply IH. Qed.
+Lemma pdata_link : forall l, pdata (link l) = pdata l.
+Proof. induction l as [|x [|y l] IH]; cbn; auto. f_equal. exact IH. Qed.
+Lemma pdata_stale : forall l, pdata (stale_links l) = pdata l.
+Proof. induction l as [|x [|y l] IH]; cbn; auto. f_equal. exact IH. Qed.
+Lemma pdata_map_flag (f : wpage -> wpage) l : (forall x, wp_data (f x) = wp_data x) -> pdata (map f l) = pdata l.
+Proof. intros H. unfold pdata. rewrite map_map. apply map_ext. exact H. Qed.
+Lemma pdata_firstn n l : pdata (firstn n l) = firstn n (pdata l).
+Proof. symmetry. apply firstn_map. Qed.
+Lemma pdata_skipn n l : pdata (skipn n l) = skipn n (pdata l).
+Proof. symmetry. apply skipn_map. Qed.
+
+Lemma reset_end_le : forall l i h last, (i <= h)%nat -> (reset_end l i (Some h) last <= h)%nat.
+Proof.
+  induction l as [|cur [|nxt tl] IH]; intros i h last Hi; cbn [reset_end]; [exact Hi|exact Hi|].
+  destruct (Nat.eqb_spec h i) as [->|Hne]; [lia|].
+  destruct (wp_dirty nxt || (i =? last)%nat); [exact Hi|]. apply IH. lia.
+Qed.
+
+
+
+(* ---------- the writer ---------- *)
+Section W.
+Variable PS : nat.
+Notation P := (payload PS).
+Hypothesis HP : (hdr_len <= P)%nat.
+
+(* the stream the completed events [done] and the event being written [cur] have to produce, after [base] (what the
+   tail page loaded from the file already held) *)
+Definition pre_of (base : list Z) (done : list (list Z)) : list Z :=
+  let l := layout_from P (length base) done in
+  base ++ l ++ zeros (pad_at P (length base + length l)).
+
+Record SI (s : wst) (base : list Z) (done : list (list Z)) (cur : list Z) : Prop := {
+  si_bi : exists h4, length h4 = hdr_len /\ BI PS (pdata (ws_hist s)) (ws_buf s) (pre_of base done) (h4 ++ cur);
+  si_bytes : ws_evBytes s = Z.of_nat (length cur) }.
+
+Lemma BI_hdr_some Dh b pre open : BI PS Dh b pre open -> exists i off, b_hdr b = Some (i, off).
+Proof. intros [_ _ _ (DA & dp & DB & k & _ & Hh & _) _]. eauto. Qed.
+
+Lemma do_flush_SI s fo base done cur : SI s base done cur -> SI (fst (do_flush s fo)) base done cur.
+Proof.
+  intros [(h4 & Hh4 & HBI) Hbytes].
+  unfold do_flush. destruct (flush_range (ws_buf s)) as [n reported].
+  destruct n as [|n1]; [split; eauto|].
+  destruct (BI_hdr_some _ _ _ _ HBI) as (i & off & Hh).
+  set (range := firstn (S n1) (b_pages (ws_buf s))). set (rest := skipn (S n1) (b_pages (ws_buf s))).
+  set (u := first_unassigned range).
+  assert (Hsplit : pdata range ++ pdata rest = pdata (b_pages (ws_buf s))).
+  { unfold range, rest. rewrite <- pdata_app, firstn_skipn. reflexivity. }
+  assert (Hr1 : forall ids, pdata (firstn u range ++ assign ids (skipn u range)) = pdata range).
+  { intros ids. rewrite pdata_app, pdata_assign, <- pdata_app, firstn_skipn. reflexivity. }
+  destruct fo as [ids| |ids]; cbn [fst].
+  - (* success *)
+    set (range2 := link (firstn u range ++ assign ids (skipn u range))).
+    set (clean := map (set_dirty false) range2 ++ rest).
+    assert (Hclean : pdata clean = pdata (b_pages (ws_buf s))).
+    { unfold clean, range2. rewrite pdata_app, pdata_map_flag by reflexivity. rewrite pdata_link, Hr1. exact Hsplit. }
+    rewrite Hh. cbn [option_map fst].
+    set (k := reset_end clean 0 (Some i) n1).
+    assert (Hk : (k <= i)%nat) by (apply reset_end_le; lia).
+    split; cbn [ws_buf ws_hist ws_evBytes]; [|exact Hbytes].
+    exists h4. split; [exact Hh4|]. rewrite pdata_app.
+    eapply BI_shift; [exact HP | exact Hclean | exact Hh | exact Hk | reflexivity | reflexivity | exact HBI].
+  - split; eauto.
+  - split; cbn [with_buf ws_buf ws_hist ws_evBytes]; [|exact Hbytes].
+    exists h4. split; [exact Hh4|].
+    eapply BI_same_data; [| |exact HBI]; cbn [b_pages b_hdr]; [|reflexivity].
+    rewrite pdata_app, pdata_app, pdata_map_flag by reflexivity.
+    rewrite <- pdata_app, firstn_skipn, pdata_stale, Hr1. exact Hsplit.
+Qed.
+
+Lemma flush_buffer_SI s fo base done cur : SI s base done cur -> SI (fst (flush_buffer s fo)) base done cur.
+Proof.
+  intros H. unfold flush_buffer. pose proof (do_flush_SI s fo base done cur H) as H1.
+  destruct (do_flush s fo) as [s1 r]. cbn [fst] in H1.
+  destruct r; cbn [fst]; try exact H1; destruct H1 as [Hb Hy]; split; cbn [ws_buf ws_hist ws_evBytes]; assumption.
+Qed.
+
+Definition spec_step (st : list (list Z) * list Z) (o : wop) (r : wres) : list (list Z) * list Z :=
+  match o, r with
+  | WWrite d _, WErr _ => st                         (* the write was refused: nothing was appended *)
+  | WWrite d _, WOk _ => (fst st, snd st ++ d)
+  | WNext _, _ => (fst st ++ [snd st], [])           (* the event is complete also when the implicit flush fails *)
+  | WFlush _, _ => st
+  end.
+
+Lemma pre_of_next base done cur h :
+  h = le_encode hdr_len (Z.of_nat (length cur)) ->
+  let all := pre_of base done ++ h ++ cur in
+  all ++ zeros (pad_at P (length all)) = pre_of base (done ++ [cur]).
+Proof.
+  intros ->. cbn zeta. unfold pre_of. rewrite layout_from_app. cbn [layout_from]. rewrite app_nil_r.
+  unfold frame_event. rewrite <- !app_assoc. f_equal. f_equal.
+  set (l := layout_from P (length base) done).
+  rewrite !app_length, zeros_length, le_encode_length.
+  reflexivity.
+Qed.
+
+Theorem w_step_SI s o base done cur : SI s base done cur ->
+  let '(s', r) := w_step PS s o in
+  let '(done', cur') := spec_step (done, cur) o r in
+  SI s' base done' cur'.
+Proof.
+  intros H. destruct o as [data fo|fo|fo]; cbn [w_step].
+  - (* Write *)
+    assert (Hgo : forall s1, SI s1 base done cur ->
+              SI {| ws_buf := append PS (ws_buf s1) data; ws_evBytes := ws_evBytes s1 + Z.of_nat (length data); ws_evId := ws_evId s1;
+                    ws_active := ws_active s1; ws_root := ws_root s1; ws_hist := ws_hist s1 |} base done (cur ++ data)).
+    { intros s1 [(h4 & Hh4 & HBI) Hb]. split; cbn [ws_buf ws_hist ws_evBytes].
+      - exists h4. split; [exact Hh4|]. rewrite app_assoc. apply append_BI; assumption.
+      - rewrite Hb, app_length. lia. }
+    destruct (b_avail (ws_buf s) <=? Z.of_nat (length data)).
+    + pose proof (flush_buffer_SI s fo base done cur H) as H1.
+      destruct (flush_buffer s fo) as [s1 r]. cbn [fst] in H1.
+      destruct r; cbn [spec_step fst snd]; [apply Hgo; exact H1 | exact H1].
+    + cbn [spec_step fst snd]. apply Hgo. exact H.
+  - (* Next *)
+    destruct H as [(h4 & Hh4 & HBI) Hb].
+    set (b1 := reserve_hdr PS (commit_event (set_hdr_size (ws_buf s) (ws_evBytes s)) (ws_evId s))).
+    assert (H1 : SI {| ws_buf := b1; ws_evBytes := 0; ws_evId := ws_evId s + 1; ws_active := ws_active s + 1; ws_root := ws_root s;
+                       ws_hist := ws_hist s |} base (done ++ [cur]) []).
+    { split; cbn [ws_buf ws_hist ws_evBytes]; [|reflexivity].
+      exists (zeros hdr_len). split; [apply zeros_length|]. rewrite app_nil_r.
+      rewrite <- (pre_of_next base done cur _ eq_refl). cbn zeta.
+      unfold b1. apply reserve_hdr_BI; [exact HP|]. apply commit_event_BC.
+      rewrite Hb. first [eapply set_hdr_size_BI; [exact HP | exact Hh4 | exact HBI] | eapply set_hdr_size_BI; [exact Hh4 | exact HBI]]. }
+    destruct (b_avail b1 <=? Z.of_nat hdr_len).
+    + pose proof (flush_buffer_SI _ fo _ _ _ H1) as H2.
+      destruct (flush_buffer _ fo) as [s2 r]. cbn [fst] in H2. cbn [spec_step fst snd]. exact H2.
+    + cbn [spec_step fst snd]. exact H1.
+  - pose proof (flush_buffer_SI s fo base done cur H) as H1.
+    destruct (flush_buffer s fo) as [s1 r]. cbn [fst] in H1. cbn [spec_step]. exact H1.
+Qed.
+
+(* the events a sequence of operations produces *)
+Fixpoint spec_run (st : list (list Z) * list Z) (ops : list wop) (rs : list wres) : list (list Z) * list Z :=
+  match ops, rs with
+  | o :: ops', r :: rs' => spec_run (spec_step st o r) ops' rs'
+  | _, _ => st
+  end.
+
+Theorem w_run_SI : forall ops s base done cur, SI s base done cur ->
+  let '(s', rs) := w_run PS s ops in
+  let '(done', cur') := spec_run (done, cur) ops rs in
+  SI s' base done' cur'.
+Proof.
+  induction ops as [|o ops IH]; intros s base done cur H; cbn [w_run spec_run]; [exact H|].
+  pose proof (w_step_SI s o base done cur H) as H1.
+  destruct (w_step PS s o) as [s1 r].
+  destruct (spec_step (done, cur) o r) as [done1 cur1] eqn:E.
+  specialize (IH s1 base done1 cur1 H1).
+  destruct (w_run PS s1 ops) as [s2 rs]. cbn [spec_run]. rewrite E. exact IH.
+Qed.
+
+Theorem w_init_SI pages tail endId r :
+  match tail with Some t => (length (wp_data t) <= P)%nat | None => True end ->
+  SI (w_init PS pages tail endId r) (match tail with Some t => wp_data t | None => [] end) [] [].
+Proof.
+  intros Ht. split; cbn [w_init ws_buf ws_hist ws_evBytes]; [|reflexivity].
+  exists (zeros hdr_len). split; [apply zeros_length|]. rewrite app_nil_r.
+  unfold pre_of. cbn [layout_from length app]. rewrite Nat.add_0_r.
+  apply reserve_hdr_BI; [exact HP|].
+  destruct tail as [t|]; split; cbn [b_pages pdata map app ws_hist]; try reflexivity; try discriminate.
+  - constructor; [exact Ht|constructor].
+  - constructor.
+Qed.
+
+(* the content of the stream in terms of the events alone *)
+Theorem writer_stream s base done cur : SI s base done cur ->
+  exists h4, length h4 = hdr_len /\
+    flat P (pdata (ws_hist s ++ b_pages (ws_buf s))) = pre_of base done ++ h4 ++ cur.
+Proof.
+  intros [(h4 & Hh4 & HBI) _]. exists h4. split; [exact Hh4|]. rewrite pdata_app. apply (bi_flat _ _ _ _ _ HBI).
+Qed.
+
+End W.
